@@ -9,6 +9,7 @@ import SqlLineage.IO.Graph
 import SqlLineage.IO.Sql
 import SqlLineage.IO.PathSec
 import SqlLineage.IO.Rename
+import SqlLineage.IO.Names
 
 open Lean
 
@@ -27,7 +28,13 @@ def handlers : List (String × (Json → Except String Json)) := [
   ("pathlib", SqlLineage.IO.PathSec.handlePathlib),
   ("rename", SqlLineage.IO.Rename.handleRename),
   ("renamenames", SqlLineage.IO.Rename.handleNames),
-  ("renamerender", SqlLineage.IO.Rename.handleRoundTrip)
+  ("renamerender", SqlLineage.IO.Rename.handleRoundTrip),
+  ("ident", SqlLineage.IO.Names.handleIdent),
+  ("namesBatch", SqlLineage.IO.Names.handleBatch),
+  ("namesOf", SqlLineage.IO.Names.handleOf),
+  ("namesSrc", SqlLineage.IO.Names.handleSrc),
+  ("namesSites", SqlLineage.IO.Names.handleSites),
+  ("namesEq", SqlLineage.IO.Names.handleEq)
 ]
 
 def handleLine (line : String) : String :=
